@@ -39,7 +39,11 @@ def get_hash_by_name(name):
 
     # general hash support
     if name in hashlib.algorithms_available:
-        return hashlib.new(name)
+        h = hashlib.new(name)
+        # variable-length (XOF) algorithms such as shake_* have no
+        # fixed digest and cannot be used via hexdigest()
+        if h.digest_size != 0:
+            return h
 
     raise UnsupportedHash(name)
 
